@@ -58,6 +58,65 @@ def cases(draw):
     return {'model': spec, 'value': v, 'share': draw(st.integers(0, 4)) == 0}
 
 
+# (type, default, values that look like the default without being it)
+OB, UIB, USB = ['opt', 'bool'], ['union', 'int', 'bool'], ['union', 'str', 'bool']
+LOOKALIKE = [
+    (OB, ['none'], [['bool', False], ['bool', True]]),
+    (OB, ['bool', False], [['none'], ['bool', True]]),
+    (UIB, ['int', 3], [['bool', True], ['bool', False], ['int', 1]]),
+    (UIB, ['int', 0], [['bool', False], ['bool', True]]),
+    (UIB, ['bool', True], [['int', 2], ['int', 0]]),
+    (USB, ['str', 'false'], [['bool', False], ['str', 'False']]),
+    (USB, ['str', 'auto'], [['bool', True], ['bool', False], ['str', '']]),
+    (USB, ['str', ''], [['bool', False]]),
+    (USB, ['bool', False], [['str', 'false'], ['str', ''], ['str', 'no']]),
+    ('any', ['none'], [['bool', False], ['int', 0], ['str', ''], ['float', '0.0'], ['str', 'null'],
+                       ['str', '~'], ['list', []], ['dict', []]]),
+    ('any', ['int', 0], [['bool', False], ['str', '0'], ['none'], ['str', '']]),
+    ('any', ['str', ''], [['bool', False], ['none'], ['int', 0]]),
+    ('any', ['bool', False], [['int', 0], ['none'], ['str', ''], ['str', 'false'], ['str', 'no']]),
+    ('any', ['bool', True], [['int', 2], ['str', 'true'], ['str', 'yes'], ['str', 'on']]),
+    ('any', ['str', 'true'], [['bool', True], ['str', 'True']]),
+    ('any', ['str', '1'], [['int', 1], ['float', '1.0']]),
+    ('any', ['str', '1.5'], [['float', '1.5']]),
+    ('any', ['float', '1.5'], [['str', '1.5']]),
+    (None, ['none'], [['bool', False], ['str', ''], ['int', 0]]),
+    (['opt', 'int'], ['none'], [['int', 0]]),
+    (['opt', 'str'], ['none'], [['str', ''], ['str', 'null'], ['str', '~'], ['str', 'None']]),
+    (['opt', 'float'], ['none'], [['float', '0.0'], ['float', 'nan']]),
+    (['union', 'str', 'int'], ['int', 7], [['str', '7']]),
+    (['union', 'str', 'int'], ['str', '7'], [['int', 7]]),
+    (['union', 'str', 'float'], ['str', '.inf'], [['float', 'inf']]),
+]
+
+
+@st.composite
+def lookalike_cases(draw):
+    """A class that drops defaults when dumped; attribute values that are not
+    the default but resemble it (same truthiness, same spelling, other type)."""
+    rows = draw(st.lists(st.sampled_from(LOOKALIKE), min_size=1, max_size=3))
+    params = [{'name': 'req', 'type': 'int'}]
+    kw = [['req', ['int', 1]]]
+    for i, (t, d, vals) in enumerate(rows):
+        params.append({'name': 'p%d' % i, 'type': t, 'default': d})
+        kw.append(['p%d' % i, draw(st.sampled_from(vals + vals + [d]))])
+    cls = {'name': 'D', 'kind': 'obj', 'bases': [], 'params': params,
+           'sweeten': [['remove_defaults']]}
+    classes = [cls]
+    doc = ['ref', 'D']
+    v = ['obj', 'D', kw, None]
+    if draw(st.booleans()):
+        # dumped through a subclass: the base class's hook sees the subclass
+        classes.append({'name': 'E', 'kind': 'obj', 'bases': ['D'], 'params':
+                        [params[0], {'name': 'e_only', 'type': 'str'}] + params[1:]})
+        v = ['obj', 'E', [kw[0], ['e_only', ['str', 'x']]] + kw[1:], None]
+    spec = {'classes': classes, 'doc_type': doc, 'order': [c['name'] for c in classes]}
+    if draw(st.booleans()):
+        spec['doc_type'] = ['list', doc]
+        v = ['list', [v]]
+    return {'model': spec, 'value': v, 'share': False}
+
+
 def to_pt(p):
     """python plain projection -> PT with the tags a YAML reader would see."""
     if isinstance(p, dict):
@@ -279,6 +338,7 @@ def _base_phases(tier):
                   'every string of the adversarial pool (%d strings) at each of %d positions'
                   % (len(set(gen.HARD_STRINGS + gen.PATHS)), len(POSITIONS))),
         HypPhase('models_x_values', cases(), 300 if quick else 5000),
+        HypPhase('lookalike_defaults', lookalike_cases(), 40 if quick else 600),
     ]
 
 
